@@ -507,3 +507,36 @@ func checkTableKeysAgree(c *core.Ctx, rule string, gen *ssa.Package) {
 	}
 	c.Check(n >= 3, rule, "", "table updates of the Generator found", token.NoPos, fmt.Sprint(n), fmt.Sprintf("only %d map updates into Generator fields found", n))
 }
+
+// checkComponentSharesItems: fix.NewComponent keeps the slice it is given. The generated group accessors wrap a stored entry with
+// fix.NewComponent(entry...) and hand the wrapper to the entry type's setters, which replace slots of that slice (a nested group or
+// component is set by assigning items[i]): with a private copy in the wrapper the replacement never reaches the entry stored in
+// the group — nor the wire.
+func checkComponentSharesItems(c *core.Ctx, rule string) {
+	fn := c.Func("fix", "NewComponent")
+	f := c.Field("fix", "Component", "items")
+	if !c.Anchor("component constructor", fn != nil && f != nil && len(fn.Params) == 1, "fix.NewComponent, Component.items", posOf(fn)) {
+		return
+	}
+	n, bad := 0, ""
+	an.AllInstrs(fn, func(in ssa.Instruction) {
+		st, ok := in.(*ssa.Store)
+		if !ok {
+			return
+		}
+		fa, ok := st.Addr.(*ssa.FieldAddr)
+		if !ok || an.FieldOf(fa) != f {
+			return
+		}
+		n++
+		v := st.Val
+		if ct, isCT := v.(*ssa.ChangeType); isCT {
+			v = ct.X
+		}
+		if v != ssa.Value(fn.Params[0]) {
+			bad = "Component.items ← " + an.Render(st.Val)
+		}
+	})
+	c.Check(n == 1 && bad == "", rule, "NewComponent", "the component keeps the slice it is given (the generated entry wrappers share their slots with the stored entry)", fn.Pos(), "&Component{items: items}",
+		bad+": Entries() of a generated group wraps each stored entry with NewComponent(entry...); a setter that replaces a slot (a nested group or component) then writes into the wrapper's private copy, and the value never reaches the group or the wire")
+}
